@@ -142,7 +142,12 @@ def impl_tables(rows, refs):
         cols = list(nn.columns)
         tn = [[enc_cell(r[c]) for c in NODE_COLS + REF_COLS] for _, r in nn.iterrows()]
         tr = [[enc_cell(r[c]) for c in ("Src", "Trg", "ReferenceType")] for _, r in rr.iterrows()]
-        return ["ok", cols, tn, tr]
+        # ... and per namespace
+        per = []
+        for uri in ("urn:a", "urn:b"):
+            nk = g.get_normalized_nodes_df(uri); rk = g.get_normalized_references_df(uri)
+            per.append([[[enc_cell(r[c]) for c in NODE_COLS + REF_COLS] for _, r in nk.iterrows()], [[enc_cell(r[c]) for c in ("Src", "Trg", "ReferenceType")] for _, r in rk.iterrows()]])
+        return ["ok", cols, tn, tr, per]
     except BaseException as e:
         return ["err", type(e).__name__ + ": " + str(e)[:100]]
 
@@ -151,6 +156,11 @@ def model_reqs(rows, refs):
     gn = [[r["id"], [enc_cell(r[c]) and list(enc_cell(r[c])) for c in NODE_COLS], [None if r[c] is pd.NA else [int(r[c])] for c in REF_COLS]] for r in rows]
     gn = [[i, [None if c is None else [c] for c in cells], rc] for i, cells, rc in gn]
     return [Sym("c14_nodes"), lk, gn], [Sym("c14_refs"), lk, [list(r) for r in refs]]
+
+def model_reqs_ns(rows, refs, k):
+    (_, lk, gn), _ = model_reqs(rows, refs)
+    pairs = [[n, int(r["ns"])] for n, r in zip(gn, rows)]
+    return [Sym("c14_nodes_ns"), lk, k, pairs], [Sym("c14_refs_ns"), lk, k, pairs, [list(r) for r in refs]]
 
 def dec_rows(a):
     a = vlib.untext(a)
@@ -185,6 +195,8 @@ def check(ctx):
     for t_ in range(25 if ctx.quick() else 400):
         rows, refs = random_graph_tables(rng, P, twin=True if t_ in (1, 2, 3) else None)
         a, b = model_reqs(rows, refs); reqs.append(a); meta.append(("nodes", len(tables), 0)); reqs.append(b); meta.append(("refs", len(tables), 0))
+        for k_ in (1, 2):
+            a, b = model_reqs_ns(rows, refs, k_); reqs.append(a); meta.append(("nodes-ns%d" % k_, len(tables), 0)); reqs.append(b); meta.append(("refs-ns%d" % k_, len(tables), 0))
         tables.append((rows, refs))
     ans = vlib.run_model(reqs, shards=12)
     lt = {}
@@ -254,6 +266,9 @@ def check(ctx):
             ctx.fail("C14/normalize-raises", dict(kind="table", rows=repr(rows), refs=refs), out[1]); continue
         if out[2] != model_tables[("nodes", t)]: ctx.disagree("normalized-nodes", ["table", t, repr(rows)], out[2], model_tables[("nodes", t)])
         if out[3] != model_tables[("refs", t)]: ctx.disagree("normalized-refs", ["table", t, refs], out[3], model_tables[("refs", t)])
+        for k_ in (1, 2):
+            if out[4][k_ - 1][0] != model_tables[("nodes-ns%d" % k_, t)]: ctx.disagree("normalized-nodes-per-namespace", ["table", t, k_, repr(rows)], out[4][k_ - 1][0], model_tables[("nodes-ns%d" % k_, t)])
+            if out[4][k_ - 1][1] != model_tables[("refs-ns%d" % k_, t)]: ctx.disagree("normalized-refs-per-namespace", ["table", t, k_, refs], out[4][k_ - 1][1], model_tables[("refs-ns%d" % k_, t)])
         # the property itself: permute rows and renumber ids
         for variant in range(2):
             perm = list(range(len(rows))); rng.shuffle(perm)
